@@ -36,6 +36,7 @@ Definition confined_event (e : state * op * output) : Prop :=
       (* free() touches no memory: its only call is sdram_free(start of the allocation) *)
       forall c, In c (o_calls out) ->
         exists root, nth_error (st_views st) 0 = Some root /\ c = CFree (v_start root)
+  | OFreeFault => o_calls out = []
   end.
 
 (* every view is a well-formed range inside the allocation (= the range of view 0) *)
@@ -114,7 +115,8 @@ Inductive fop :=
 (* a `with` block: entering does nothing, leaving it -- however it is left -- closes *)
 | FEnter | FExit.
 
-Inductive aop := AWin (i : nat) (o : fop) | AFree.
+Inductive aop := AWin (i : nat) (o : fop) | AFree
+                | AFreeFault.      (* freeing fails with an I/O error: the file stays as it is *)
 
 (* what a file operation shows: the value (positions relative to the file: [VView lo hi],
    [VAddr position in the file]) and whether a truncation warning was given *)
@@ -201,6 +203,11 @@ Definition astep (f : afile) (o : aop) : afile * aout :=
       | _ :: _ => if a_freed f then (f, (Failed 0, false))
                   else (mkAFile (a_data f) (a_wins f) true, (Ok VNone, false))
       end
+  | AFreeFault =>
+      match a_wins f with
+      | [] => (f, (OtherError, false))
+      | _ :: _ => if a_freed f then (f, (Failed 0, false)) else (f, (Failed 2, false))
+      end
   end.
 
 Fixpoint atrace (f : afile) (ops : list aop) : list aout :=
@@ -239,7 +246,7 @@ Definition abs_vop (o : vop) : fop :=
   end.
 
 Definition abs_op (o : op) : aop :=
-  match o with OView i vo => AWin i (abs_vop vo) | OFree => AFree end.
+  match o with OView i vo => AWin i (abs_vop vo) | OFree => AFree | OFreeFault => AFreeFault end.
 
 (* the literal reading, under which seek(n, 2) would be the file's seek(n, 2) *)
 Definition abs_op_literal (o : op) : aop :=
